@@ -159,6 +159,8 @@ fn string_strategy() -> BoxedStrategy<String> {
         1 => Just("éé".to_string()),
         1 => Just("aé".to_string()),
         1 => Just("€".to_string()),
+        // three-byte characters that text tools like to strip or normalise
+        1 => proptest::sample::select(vec!["\u{feff}", "\u{200b}", "\u{2028}", "\u{3000}", "\u{fffd}", "\u{ffff}"]).prop_map(str::to_string),
         1 => "[ -~]{3}",
         1 => "\\PC{1,3}",
     ];
